@@ -6,7 +6,7 @@ THEOREMS = {
     "Dawgs.Props.C11": [P + n for n in (
         # generic, proved once for every schema / table / tree / visitor
         "copy_equal_and_fresh", "generic_terminates", "monitor_accepts_generic", "enter_exit_nested",
-        "consume_next_is_exit", "consume_prunes_exactly_subtree", "tree_monitor_accepts_generic", "consume_schedule_complete", "handler_calls_exact", "setError_nil_never_cancels", "done_stops_immediately", "error_stops_immediately",
+        "consume_next_is_exit", "consume_prunes_exactly_subtree", "tree_monitor_accepts_generic", "consume_schedule_complete", "handler_calls_exact", "setError_nil_never_cancels", "walk_leaves_handler_clean", "reused_visitor_walk", "reused_done_visitor_walks_nothing", "done_stops_immediately", "error_stops_immediately",
         "nil_branch_is_error", "plain_walk", "structural_visits_all", "semantic_subset_structural",
         # instance side conditions on the regenerated tables (decide +kernel)
         "extractor_recognised_everything", "generic_shape_inst", "handler_shape_inst", "semanticSubset_inst", "branchesComplete_inst", "copyTotal_inst", "helpers_allocate_inst",
@@ -122,7 +122,8 @@ SPEC = {
             "any payloads incl. slices/maps; every 4th value 'nilish': nil slice elements / typed-nil pointers in interfaces) + the model parsed from every "
             "Cypher text of the repository corpora (every third one, thorough: every one, a second time with all expression lists drained through their own Remove: op qd); per case the real Copy (DeepEqual + rendering equality, aliased fields by address incl. the backing array of every slice with cap > 0 even when empty, 3-phase mutate-and-recompare where both sides append DIFFERENT elements) and both "
             "real walkers with the never-acting visitor plus 4 (thorough 16; all (k,act) when <= 24 callbacks) scripted visitors consume/done/error at the k-th callback, plus CONSUME SCHEDULES per walker: "
-            "handler-call sequences (SetError(nil) in every callback, nil error + Consume, SetError twice, SetError after SetDone, SetDone then nil error, at label-determined and random positions), Consume in every Exit (*X), every Visit (*V), in Enter+Exit / Enter+Visit+Exit of label-determined node sets (#m.r), and in Enter(X)+Exit(X) of positions k+(k+1) (3 random; all when <= 16, thorough <= 40 callbacks), "
+            "SEQUENCES of two walks with ONE visitor object (A>B: A = bare leaf root consumed in Enter / Exit / both, the value with Consume in every Exit incl. the root's, in its last callback, cancelled, failed; "
+            "B = the value with a never-acting or scripted visitor; oracle: B like a fresh visitor unless A was cancelled, then no callback), handler-call sequences (SetError(nil) in every callback, nil error + Consume, SetError twice, SetError after SetDone, SetDone then nil error, at label-determined and random positions), Consume in every Exit (*X), every Visit (*V), in Enter+Exit / Enter+Visit+Exit of label-determined node sets (#m.r), and in Enter(X)+Exit(X) of positions k+(k+1) (3 random; all when <= 16, thorough <= 40 callbacks), "
             "k uniform over the walk's length (splitmix64(VERIF_SEED)); the Lean model gets the real value as an S-expression and must predict copy equality, the aliased "
             "fields and every event log; suite c11pg: walk.PgSQL with the same scripts over the PostgreSQL AST the real translator emits for every corpus query, branch tree "
             "decoded from the never-acting walk, model must reproduce every log incl. Visit placement; non-trivial = value has >= 3 nodes and a scripted action changed the traversal or a nil branch was reported; distinct = distinct op lines",
